@@ -232,6 +232,7 @@ val step_stream : stream -> actor -> sev -> stream option
 type call =
 | InIdle
 | InStart
+| InStartBusy
 | InStartFail
 | InStop
 | InAbort
@@ -241,6 +242,7 @@ type gev =
 | GConfigure of bool * bool * n * n
 | GStartCall
 | GStartRet of bool
+| GStartRefused
 | GStopCall
 | GStopRet
 | GAbortCall
